@@ -746,6 +746,7 @@ def main(tier: str) -> int:
         "exact-arithmetic theorems: the rounding error of the weighted recurrences is measured by the Fraction oracle, not bounded by a theorem",
         "int arguments beyond 2^53 are not generated (except ints beyond the float range, as rejected input)",
     ])
+    run.assumptions = ["math.sqrt respects equality and is positive on positive arguments (contract on the uninterpreted sqrt of the exact-arithmetic theorems)", "Coq primitive floats and CPython floats agree bit for bit on + - * / sqrt and comparisons", "observations are floats or ints of magnitude <= 2^53 (or rejected inputs)"]
     C.use_repo_sources()
     rng = random.Random(run.seed * 15485863 + 10)
     quick = tier == "quick"
